@@ -33,7 +33,12 @@ RULE = (
     "published with Tree.from_trie from ONE working trie (plain pygtrie or an earlier tree's as_trie()) that is "
     "edited (replace/add/remove keys) between publications; after every step a drawn published tree - often an "
     "earlier one - must have listing/id == reference of the entries it was published with and answer the drawn "
-    "prefix reads from exactly those entries. "
+    "prefix reads from exactly those entries. LIVE: up to 8 live trees derived from one another (filter, "
+    "update_meta, odb.add + Tree.load through harness-owned HashInfo keys, loading twice through one key, get_obj) "
+    "with add and digest applied to one of them at a time; after every step EVERY live tree must still report the "
+    "id the model assigns it (its last digest; the source's id for filter/update_meta copies; the key for loaded "
+    "trees) with hash_info == oid, list its own entries, equal a fresh rebuild + reference when it is clean, and "
+    "every HashInfo key handed to load must be unchanged. "
     "FS: a generated tree materialised twice in two drawn creation orders (second copy on tmpfs or on the "
     "disk temp dir), staged with build() under checksum_jobs in {None,1,2,8}, state none / cold+warm, optionally "
     "with the State already holding rows for the same unchanged files from a build / _get_hashes run under the "
@@ -50,6 +55,7 @@ RULE = (
     "its own hashlib digest; metamorphic: every whole-tree build of a case gives ONE id and every file ONE "
     "digest on all routings (where the legacy digest of a >1 MiB file is not pinned down, only this is asked). "
     "Non-trivial: pure = >=3 entries, >=1 nested key, permutation != identity; "
+    "live = nested keys, >=2 live trees and a re-digest that changes one tree's id while copies are alive; "
     "pub = nested keys and a read on a published tree whose entries differ from the working trie's current ones; "
     "hist = nested keys and a read, then an overwrite of an existing key with another hash, then a prefix-based read; "
     "fs = >=2 files and (>=2 files hashed on pool threads in one phase, or a warm build served entirely from "
@@ -198,6 +204,31 @@ def pub_cases(draw):
         "oids": draw(st.lists(st.sampled_from(XOIDS), min_size=1, max_size=6)),
         "via": draw(st.sampled_from(["trie", "as_trie"])),
         "steps": draw(st.lists(PSTEP, min_size=2, max_size=9)),
+    }
+
+
+LSTEP = st.fixed_dictionaries({
+    "op": st.sampled_from(["filter", "filter", "update_meta", "store_load", "store_load", "load_again", "get_obj",
+                           "add", "add", "add", "digest", "digest", "digest", "digest", "digest"]),
+    "a": st.integers(0, 7),
+    "b": st.integers(0, 7),
+    "i": st.integers(0, 11),
+    "oid": st.sampled_from(XOIDS),
+    "name": st.one_of(st.none(), PN),
+    "p": st.integers(0, 7),
+})
+
+
+@st.composite
+def live_cases(draw):
+    """Several live trees derived from one another (filter / update_meta / load / get_obj copies), one of them
+    mutated and re-digested at a time."""
+    return {
+        "kind": "live",
+        "algo": draw(st.sampled_from(HNAMES)),
+        "keys": draw(PKEYS),
+        "oids": draw(st.lists(st.sampled_from(XOIDS), min_size=1, max_size=6)),
+        "steps": draw(st.lists(LSTEP, min_size=3, max_size=10)),
     }
 
 
@@ -658,6 +689,124 @@ def run_pub(case, ctx):
         reset_globals()
 
 
+def run_live(case, ctx):
+    """Histories over several live trees. Model per tree: its current entries, the id it must report (the id of
+    its last digest; for filter()/update_meta() copies the source tree's id, as their docstrings say; for a
+    loaded tree the id it was loaded under) and whether that id is the digest of its current listing. After
+    every step EVERY live tree and every HashInfo key handed to Tree.load is re-checked."""
+    from dvc_data.hashfile.hash_info import HashInfo
+    from dvc_data.hashfile.meta import Meta
+    from dvc_data.hashfile.tree import Tree, update_meta
+
+    reset_globals()
+    try:
+        algo = case["algo"]
+        E0 = entries_of(case)
+        odb = ops.make_odb("mem", "/odb", hash_name=algo)
+        viols, classes = [], [f"live:algo={algo}"]
+        t0 = mk_tree(E0, sorted(E0), [{}], algo)
+        t0.digest(name=algo)
+        live = [{"t": t0, "E": dict(E0), "id": ref_oid(joined(E0), algo), "clean": True, "own": True, "how": "built"}]
+        keys = []  # (HashInfo object handed to Tree.load, the value the harness put into it)
+        shared = False
+        judged = False
+
+        def check_all(where):
+            for n, r in enumerate(live):
+                t = r["t"]
+                hi = t.hash_info
+                if hi is None or hi.value != r["id"] or t.oid != r["id"] or hi.name != r.get("name", algo):
+                    viols.append(Viol(f"live:id-changed:{r['how']}",
+                                      f"{where}: tree #{n} ({r['how']}) reports hash_info={hi} oid={t.oid}, but its "
+                                      f"id is {algo}:{r['id']}"))
+                    return
+                if t.as_bytes() != ref_bytes(joined(r["E"]), algo):
+                    viols.append(Viol(f"live:listing-changed:{r['how']}", f"{where}: tree #{n} lists other entries"))
+                    return
+                if r["clean"]:
+                    fresh = mk_tree(r["E"], sorted(r["E"]), [{}], algo)
+                    fresh.digest(name=algo)
+                    if fresh.oid != t.oid or t.oid != ref_oid(joined(r["E"]), algo):
+                        viols.append(Viol(f"live:id-vs-rebuild:{r['how']}",
+                                          f"{where}: tree #{n} id {t.oid} != fresh rebuild {fresh.oid} / reference"))
+                        return
+            for n, (k, v) in enumerate(keys):
+                if k.value != v or k.name != algo:
+                    viols.append(Viol("live:load-key-changed", f"{where}: the HashInfo key #{n} handed to Tree.load "
+                                                               f"now reads {k}, it was {algo}:{v}"))
+                    return
+
+        check_all("initially")
+        for n, st_ in enumerate(case["steps"]):
+            if viols:
+                break
+            op = st_["op"]
+            ra = live[st_["a"] % len(live)]
+            rb = live[st_["b"] % len(live)]
+            ta, Ea = ra["t"], ra["E"]
+            prefixes = sorted({k[:d] for k in Ea for d in range(1, len(k))}) or [()]
+            p = prefixes[st_["p"] % len(prefixes)]
+            room = len(live) < 8
+            if op == "filter" and room:
+                sub = {k: v for k, v in Ea.items() if k[:len(p)] == p}
+                live.append({"t": ta.filter(p), "E": sub, "id": ra["id"], "clean": ra["clean"] and sub == Ea,
+                             "own": False, "how": "filter", "name": ra.get("name", algo)})
+                shared = True
+            elif op == "update_meta" and room:
+                live.append({"t": update_meta(ta, rb["t"]), "E": dict(Ea), "id": ra["id"], "clean": ra["clean"],
+                             "own": False, "how": "update_meta", "name": ra.get("name", algo)})
+                shared = True
+            elif op == "get_obj" and room and p:
+                sub = {k[len(p):]: v for k, v in Ea.items() if k[:len(p)] == p}
+                g = ta.get_obj(odb, p)
+                if isinstance(g, Tree) and hkey(algo) == "md5":
+                    # get_obj() always digests with the default name
+                    live.append({"t": g, "E": sub, "id": ref_oid(joined(sub), algo), "clean": True, "own": True,
+                                 "how": "get_obj", "name": "md5"})
+            elif op == "store_load" and room and ra["own"] and ra["clean"]:
+                odb.add(ta.path, ta.fs, ta.oid)
+                key = HashInfo(algo, ra["id"])
+                keys.append((key, ra["id"]))
+                live.append({"t": Tree.load(odb, key), "E": dict(Ea), "id": ra["id"], "clean": True, "own": False,
+                             "how": "load"})
+                shared = True
+            elif op == "load_again" and room and keys:
+                key, v = keys[st_["b"] % len(keys)]
+                stored = json.loads(odb.fs.cat_file(odb.oid_to_path(v)))
+                E = {tuple(e["relpath"].split("/")): e[hkey(algo)] for e in stored}
+                live.append({"t": Tree.load(odb, key), "E": E, "id": v, "clean": True, "own": False, "how": "load"})
+                shared = True
+            elif op == "add":
+                ks = sorted(Ea)
+                k = ks[st_["i"] % len(ks)]
+                if st_["name"] is not None:
+                    nk = (*k[:-1], st_["name"])
+                    if nk in Ea or not any(nk[:len(o)] == o or o[:len(nk)] == nk for o in Ea):
+                        k = nk
+                if Ea.get(k) != st_["oid"]:
+                    ra["clean"] = False
+                Ea[k] = st_["oid"]
+                ta.add(k, Meta(size=n), HashInfo(algo, st_["oid"]))
+                classes.append("live:add")
+            elif op == "digest":
+                ta.digest(name=algo)
+                if shared and (not ra["clean"] or ra["id"] != ref_oid(joined(Ea), algo)):
+                    judged = True  # a re-digest that really changes this tree's id while copies are alive
+                ra.update(id=ref_oid(joined(Ea), algo), clean=True, own=True, name=algo)
+                classes.append("live:digest:" + ra["how"])
+            check_all(f"after step {n} ({op} on tree #{st_['a'] % len(live)})")
+        if len(live) > 1:
+            classes.append("live:trees>=2")
+        if keys:
+            classes.append("live:loaded")
+        if judged:
+            classes.append("live:redigest-with-live-copies")
+        nested = any(len(k) > 1 for k in E0)
+        return Result(viols, nested and judged and len(live) >= 2, sorted(set(classes)))
+    finally:
+        reset_globals()
+
+
 # ------------------------------------------------------------------------------------------
 # filesystem half
 # ------------------------------------------------------------------------------------------
@@ -1002,6 +1151,8 @@ def run_case(case, ctx):
         return run_hist(case, ctx)
     if case["kind"] == "pub":
         return run_pub(case, ctx)
+    if case["kind"] == "live":
+        return run_live(case, ctx)
     return run_fs(case, ctx)
 
 
@@ -1009,9 +1160,10 @@ def run(ctx):
     # the filesystem half goes first: it is the smaller one and must not be starved by the budget
     if ctx.run_given(fs_cases(thorough=ctx.tier == "thorough"), run_case,
                      ctx.n(quick=100, thorough=1500)):
-        if ctx.run_given(pure_cases(), run_case, ctx.n(quick=450, thorough=16000)):
-            if ctx.run_given(hist_cases(), run_case, ctx.n(quick=200, thorough=6000)):
-                ctx.run_given(pub_cases(), run_case, ctx.n(quick=120, thorough=4000))
+        if ctx.run_given(pure_cases(), run_case, ctx.n(quick=420, thorough=15000)):
+            if ctx.run_given(hist_cases(), run_case, ctx.n(quick=180, thorough=6000)):
+                if ctx.run_given(pub_cases(), run_case, ctx.n(quick=100, thorough=4000)):
+                    ctx.run_given(live_cases(), run_case, ctx.n(quick=120, thorough=4000))
 
 
 def replay(case, ctx):
